@@ -675,7 +675,10 @@ def process_unit(path, meta, update_mirror=False):
             ctx, ann = parse_region(region)
             merged, exact = merge(new_lines, ctx, ann)
             start_line = len(out) + 2
-            out.append(l); out.extend(merged); out.append("//@@ end")
+            cfid = "%s|%s|%s" % (file, norm_header(header) if wrap else "-", name)
+            if kind == "rawconst": log.add("RAWCONST")
+            emitted = add_canary(merged) if (cfid in CANARY and kind == "const") else merged
+            out.append(l); out.extend(emitted); out.append("//@@ end")
             mirror_out.append(l); mirror_out.extend(merged); mirror_out.append("//@@ end")
             meta["functions"].append({
                 "id": "%s|%s|%s" % (file, norm_header(header) if wrap else "-", name), "unit": unit,
@@ -721,11 +724,22 @@ def add_canary(merged):
     function is reachable under its precondition; invisible to callers, unlike `ensures false`)"""
     out = []
     done = False
-    for l in merged:
+    k = 0
+    while k < len(merged):
+        l = merged[k]
         out.append(l)
         if l.strip() == "{" and not done:
+            # `hide(..)` / `reveal(..)` headers must stay first in the body: place the canary after such an annotation block
+            j = k + 1
+            if j < len(merged) and merged[j].strip() == "//@+":
+                e = j
+                while e < len(merged) and merged[e].strip() != "//@-": e += 1
+                blk = merged[j:e + 1]
+                if any(re.match(r"\s*(hide|reveal)\(", x) for x in blk):
+                    out += blk; k = e
             out += ["//@+", "    assert(false); // vacuity canary", "//@-"]
             done = True
+        k += 1
     return out
 
 def keep_contract_only(merged):
